@@ -175,11 +175,19 @@ func parkedWorkerIn(dump string) string {
 				continue
 			}
 			if m := casketFnRe.FindStringSubmatch(l); m != nil {
-				return m[1]
+				return frameName(m[1])
 			}
 		}
 	}
 	return ""
+}
+
+// frameName makes frames of the root package readable (".Start" -> "casket.Start").
+func frameName(f string) string {
+	if strings.HasPrefix(f, ".") {
+		return "casket" + f
+	}
+	return f
 }
 
 func watchdog(tPark, tMax time.Duration) {
@@ -278,6 +286,18 @@ func minimize(k *Case, first *runRes) (string, string) {
 	cur := *k
 	pan := func(c *Case) *runRes { return anyPanic(validateTwice(c)) }
 	last := first
+	if cur.With != nil {
+		// two directives: is one of them enough?
+		a, b := cur, *cur.With
+		a.With, a.FlagDir = nil, ""
+		switch {
+		case pan(&a) != nil:
+			return minimize(&a, first)
+		case pan(&b) != nil:
+			return minimize(&b, first)
+		}
+		return a.Dir + "+" + b.Dir + "-combination-" + panicClass(first.Panic), cur.Text("127.0.0.1:2015")
+	}
 	if len(cur.Lines) > 1 {
 		for _, l := range cur.Lines {
 			t := cur
@@ -440,7 +460,11 @@ func subStart(args []string) int {
 	for _, k := range cases {
 		currentID.Store(int64(k.ID))
 		res := caseRes{ID: k.ID}
-		f := accepted[k.Dir]
+		fd := k.Dir
+		if k.FlagDir != "" {
+			fd = k.FlagDir
+		}
+		f := accepted[fd]
 		if f == nil {
 			continue
 		}
